@@ -363,3 +363,17 @@ Qed.
 (* the cone fields: a cone of height 4 from radius 2 to radius 5 has slope direction (3/5, 4/5), length 5 *)
 Example C03_cone_fields_satisfiable : cone_fields 2 2 5 (3 / 5) (4 / 5) 5.
 Proof. constructor; lra. Qed.
+
+(* ---- inventory of mutable state (DESIGN.md 2.3).  The models above are functions of their arguments; they are
+   faithful only as long as the code keeps no state between calls beyond what they mention.  The package-level
+   variables and struct fields in the scope of C03 (and which of them are written outside construction, from which
+   entry points) are regenerated from the current source on every run (harness/stategen -> Generated/StateInv.v)
+   and contain no state beyond the expected, reviewed inventory of Sys/StateInvSpec.v, where every piece of state
+   that legitimately exists names the model component that accounts for it.  Breaks when a written package-level
+   variable, a struct field, or a write of a field outside its constructor is added in scope (coqc then prints the
+   differences); tolerates moved declarations, reordered fields, renamed locals, new helpers / constants / tables
+   nothing writes. *)
+From Sdfx Require Sys.StateInvSpec Sys.StateInvC03.
+Theorem C03_state_inventory : Sdfx.Sys.StateInvSpec.state_ok_C03 = true.
+Proof. exact Sdfx.Sys.StateInvC03.C03_state_inventory. Qed.
+Print Assumptions C03_state_inventory.
